@@ -130,4 +130,13 @@ CHECKS = {
           "boundary-crossing ties and slurs, division/signature changes; unfold fixtures.",
   "note": "Trusted: vmon/refmodels/repeats.py, vmon/snapshot.py. Open known findings: Segment objects cached on the argument; segment that is both leap source and destination; overhanging slur.",
  },
+ "C19": {
+  "technique": "post-condition hooks on load_mei / load_kern / load_score / save_mei / save_kern: the loaded score vs the abstract score the document was rendered from by independent MEI/kern writers",
+  "text": "A generator draws abstract scores (exact Fractions) and renders them with independent MEI and kern writers inside the "
+          "supported subsets; hooks on the readers compare the returned Score with the notation's denotation: parts, divisions "
+          "exactness, onset/duration/spelling/voice/staff of every note and rest, grace notes, ties, measure starts, meter/key/clef "
+          "in force; writer hooks load the written file back and compare onset, duration, pitch and staff; load_score must pick "
+          "the reader from the extension. Fixture files as smoke input.",
+  "note": "Trusted: vmon/refmodels/notation.py, mei_writer.py, kern_writer.py (the stated subset only). Fixtures without xml:id are counted, not judged.",
+ },
 }
